@@ -53,6 +53,21 @@ void splinetable<Alloc>::fit(const ::ndsparse& data,
 		                       +") does not equal dimension of input data ("
 		                       +std::to_string(data.ndim)+")");
 	for(uint32_t i=0; i<data.ndim; i++){
+		if(coords[i].size()<data.ranges[i])
+			throw std::logic_error("Coordinate vector for dimension "
+			                       +std::to_string(i)+" has fewer entries ("
+			                       +std::to_string(coords[i].size())
+			                       +") than the range of coordinate indices ("
+			                       +std::to_string(data.ranges[i])+")");
+		if(knots[i].size()<2*(size_t)splineOrder[i]+2)
+			throw std::logic_error("Knot vector for dimension "
+			                       +std::to_string(i)+" has too few knots ("
+			                       +std::to_string(knots[i].size())
+			                       +") for spline order "
+			                       +std::to_string(splineOrder[i])
+			                       +": at least 2*order+2 are required");
+	}
+	for(uint32_t i=0; i<data.ndim; i++){
 		if(!std::is_sorted(knots[i].begin(),knots[i].end()))
 			throw std::logic_error("Knot vector for dimension "
 			                       +std::to_string(i)+
